@@ -113,3 +113,40 @@ MUTANTS += [
     T("c10-twin-and-via-helper-var", ["C10"], FOL, "        asst = z3.And(_constraints_to_list_of_assertions(self.list_of_constraints))\n", "        operands = _constraints_to_list_of_assertions(self.list_of_constraints)\n        asst = z3.And(operands)\n"),
     T("c10-twin-not-star", ["C10"], FOL, "asst = z3.Not(z3.And(_get_assertions(self.constraint)))", "inner = _get_assertions(self.constraint)\n        asst = z3.Not(z3.And(inner))"),
 ]
+
+RS = "resource.py"
+PB = "problem.py"
+MUTANTS += [
+    # ---- C02 ----------------------------------------------------------------------
+    B("c02-pair-loop-skips-neighbour", ["C02"], SV, "for k in range(i + 1, nb_intervals):", "for k in range(i + 2, nb_intervals):"),
+    B("c02-pair-strict", ["C02", "C05"], SV, "z3.Or(start_task_k >= end_task_i, start_task_i >= end_task_k)", "z3.Or(start_task_k > end_task_i, start_task_i >= end_task_k)", expect=["R-PAIRWISE", "R-PAIRWISE-EXACT"]),
+    B("c02-pair-wrong-end", ["C02"], SV, "z3.Or(start_task_k >= end_task_i, start_task_i >= end_task_k)", "z3.Or(start_task_k >= end_task_i, start_task_i >= start_task_k)"),
+    B("c02-pair-and", ["C02", "C05"], SV, "z3.Or(start_task_k >= end_task_i, start_task_i >= end_task_k)", "z3.And(start_task_k >= end_task_i, start_task_i >= end_task_k)"),
+    B("c02-pair-only-first-worker", ["C02"], SV, "        for ress in self.problem.workers.values():\n            busy_intervals = ress.get_busy_intervals()", "        for ress in list(self.problem.workers.values())[:1]:\n            busy_intervals = ress.get_busy_intervals()"),
+    B("c02-pair-unpack-swapped", ["C02"], SV, "                    start_task_k, end_task_k = busy_intervals[k]", "                    end_task_k, start_task_k = busy_intervals[k]"),
+    B("c02-early-out-added", ["C02"], TK, "self.append_z3_assertion(resource_busy_end == self._end - early_out)", "self.append_z3_assertion(resource_busy_end == self._end + early_out)"),
+    B("c02-delay-in-ignored", ["C02"], TK, "                        resource_busy_start == self._start + delay_in\n", "                        resource_busy_start == self._start\n"),
+    B("c02-dynamic-no-nonneg-span", ["C02"], TK, "                self.append_z3_assertion(resource_busy_start <= resource_busy_end)\n", ""),
+    B("c02-dynamic-outside-task", ["C02"], TK, "self.append_z3_assertion(resource_busy_end <= self._end)", "self.append_z3_assertion(resource_busy_end >= self._end)"),
+    B("c02-busy-tuple-swapped", ["C02"], TK, "resource.add_busy_interval(self, (resource_busy_start, resource_busy_end))", "resource.add_busy_interval(self, (resource_busy_end, resource_busy_start))"),
+    B("c02-alternative-unselected-at-zero", ["C02"], TK, "                single_point_in_past = (\n                    processscheduler.base.active_problem.get_unique_negative_integer()\n                )", "                single_point_in_past = 0"),
+    B("c02-alternative-selected-not-synced", ["C02"], TK, "                    resource_maybe_busy_end == self._end,\n                )", "                    resource_maybe_busy_end <= self._end,\n                )"),
+    B("c02-alternative-branches-swapped", ["C02"], TK, "assertion = z3.If(selected_variable, schedule_as_usual, move_to_past)", "assertion = z3.If(selected_variable, move_to_past, schedule_as_usual)"),
+    B("c02-selection-assertion-dropped", ["C02"], TK, "            self.append_z3_assertion(resource._selection_assertion)\n", ""),
+    B("c02-select-pb-min-as-max", ["C02"], RS, 'problem_function = {"min": z3.PbGe, "max": z3.PbLe, "exact": z3.PbEq}', 'problem_function = {"min": z3.PbLe, "max": z3.PbGe, "exact": z3.PbEq}'),
+    B("c02-select-count-off", ["C02"], RS, "[(selected, True) for selected in selection_list], self.nb_workers_to_select", "[(selected, True) for selected in selection_list], self.nb_workers_to_select + 1"),
+    B("c02-select-flags-partial", ["C02"], RS, "        selection_list = list(self._selection_dict.values())\n", "        selection_list = list(self._selection_dict.values())[1:]\n"),
+    B("c02-select-too-many-accepted", ["C02", "C18"], RS, "        if self.nb_workers_to_select > len(self.list_of_workers):", "        if self.nb_workers_to_select > len(self.list_of_workers) + 1:"),
+    B("c02-cumulative-one-less", ["C02"], RS, "            for i in range(self.size)\n        ]", "            for i in range(self.size - 1)\n        ]"),
+    B("c02-cumulative-select-max", ["C02"], RS, 'list_of_workers=self._cumulative_workers, nb_workers_to_select=1, kind="min"', 'list_of_workers=self._cumulative_workers, nb_workers_to_select=1, kind="max"'),
+    B("c02-negative-counter-reused", ["C02"], PB, "        self._unique_integer += -1\n        return self._unique_integer", "        return self._unique_integer"),
+    B("c02-negative-counter-from-zero", ["C02"], PB, "        self._unique_integer = -1\n", "        self._unique_integer = 1\n"),
+    B("c02-work-amount-strict", ["C02", "C05"], SV, "z3.Sum(total_work_for_all_resources) >= task.work_amount", "z3.Sum(total_work_for_all_resources) > task.work_amount"),
+    B("c02-work-amount-no-productivity", ["C02"], SV, "work_contribution = required_resource.productivity * (\n                        interv_up - interv_low\n                    )", "work_contribution = (\n                        interv_up - interv_low\n                    )"),
+    B("c02-work-amount-unguarded", ["C02", "C06"], SV, "                    if task.optional:\n                        work_amount_assertion = z3.Implies(\n                            task._scheduled, work_amount_assertion\n                        )\n", ""),
+    B("c02-worker-drain-dropped", ["C02"], SV, "        for ress in self.problem.workers.values():\n            self.append_z3_assertion(ress.get_z3_assertions())\n", "        for ress in self.problem.workers.values():\n            pass\n"),
+    B("c02-busy-intervals-partial", ["C02"], RS, "return list(self._busy_intervals.values())", "return list(self._busy_intervals.values())[:-1]"),
+    T("c02-twin-pair-flipped", ["C02", "C05"], SV, "z3.Or(start_task_k >= end_task_i, start_task_i >= end_task_k)", "z3.Or(end_task_k <= start_task_i, end_task_i <= start_task_k)"),
+    T("c02-twin-busy-end-first", ["C02"], TK, "                self.append_z3_assertion(resource_busy_end <= self._end)\n                self.append_z3_assertion(resource_busy_start >= self._start)\n", "                self.append_z3_assertion(resource_busy_start >= self._start)\n                self.append_z3_assertion(self._end >= resource_busy_end)\n"),
+    T("c02-twin-static-unconditional", ["C02"], TK, "                if early_out > 0:\n                    self.append_z3_assertion(resource_busy_end == self._end - early_out)\n                else:\n                    self.append_z3_assertion(resource_busy_end == self._end)\n", "                self.append_z3_assertion(resource_busy_end == self._end - early_out)\n"),
+]
